@@ -54,7 +54,7 @@ CHECKS = {
             "Exhaustive over cut positions for the small streams, sampled otherwise; full reads are served so that C06's dimension cannot interfere.",
             SIM + "fault enumeration over truncation points"),
     "C10": ("exploration",
-            "Mixed-version simulation: the writer is a frozen snapshot of the pinned tree (harness/ref, real code under another import path), the reader is the current tree under the scheduler (jobs, schedule, Read sizes, buffer size from the tape). A pair is kept only if the reference encoder+decoder round-trip it (the property's precondition); oracle: current decode == reference decode. A tenth of the pairs use the large-block regime (one or two blocks of 150 KiB - 1 MiB, thorough up to 5 MiB, every transform kind) so that constants which only matter above some amount of data per block are exercised. Plus a committed golden corpus of 123 streams produced by the reference (every transform, every entropy codec, checksum 0/32/64, header and headerless, chains, a 256 KiB-block BWT) with the SHA-256 of the originals: the first 123 cases of every run.",
+            "Mixed-version simulation: the writer is a frozen snapshot of the pinned tree (harness/ref, real code under another import path), the reader is the current tree under the scheduler (jobs, schedule, Read sizes, buffer size from the tape). A pair is kept only if the reference encoder+decoder round-trip it (the property's precondition); oracle: current decode == reference decode. A tenth of the pairs use the large-block regime (one or two blocks of 150 KiB - 1 MiB, thorough up to 5 MiB, every transform kind) so that constants which only matter above some amount of data per block are exercised; a fifth use the boundary regime (the last block holds 2^k-1, 2^k or 2^k+1 bytes, k = 3..16), where codecs switch layout with the amount of data they are given. Plus a committed golden corpus of 123 streams produced by the reference (every transform, every entropy codec, checksum 0/32/64, header and headerless, chains, a 256 KiB-block BWT) with the SHA-256 of the originals: the first 123 cases of every run.",
             "The snapshot is the pinned commit 76efab5 (before any hook or fix). Reverse direction (current writer, reference reader) is not part of the property and is not judged.",
             SIM + "differential decoding across two code histories (pinned reference snapshot vs current tree) + fixed golden corpus"),
     "C11": ("exploration",
